@@ -108,6 +108,52 @@ let eval (fields : string list) (fail : string -> string -> unit) (bump : string
         | _ -> ()) crate;
     if List.exists (fun o -> String.length o > 0 && o.[0] = '2') crate then
       fail "oracle.C05" "a bitfield operation panicked"
+  | ["bfenc"; fl; bits; ssz; blen; rt; app; asb; into; raw; empty; gets] ->
+    (* a value reached through the mutation API, observed through the codec and the accessors *)
+    let flv = flavour_of fl in
+    let bits = bits_of_sexp_string bits in
+    let t = match flv with M.FList n -> M.TBitList n | M.FVec n -> M.TBitVector n | M.FDyn -> M.TBitDyn in
+    let v = M.VBits bits in
+    bump "bf.enc";
+    let anypanic = List.exists (fun x -> x = "panic") [ssz; blen; rt; app; asb; into] in
+    if anypanic then begin
+      fail "oracle.C05" "encoding a reachable bitfield value panicked";
+      List.iter (fun o -> fail o "an encoding entry point panicked on a value reached through the bitfield API")
+        ["oracle.C03"; "oracle.C01"; "oracle.C07"; "oracle.C10"; "oracle.C11"; "oracle.C14"]
+    end else if not (M.has_ty t v) then
+      fail "oracle.C13" "observed bits violate the length rule of the type"
+    else begin
+      let crate = bytes_of_hex ssz in
+      let spec = M.spec_enc t v in
+      if M.enc t v <> crate then fail "corr.enc" ("model=" ^ hex_of_bytes (M.enc t v));
+      if spec <> crate then begin
+        fail "oracle.C03" ("value reached through the bitfield API encodes to " ^ ssz ^ ", spec=" ^ hex_of_bytes spec);
+        fail "oracle.C11" ("encoding differs from that of the boolean sequence: spec=" ^ hex_of_bytes spec)
+      end;
+      if int_of_string blen <> List.length crate then fail "oracle.C07" "ssz_bytes_len <> produced length (value reached through the bitfield API)";
+      if M.bytes_len t v <> n_of_dec blen then fail "corr.bytes_len" ("model=" ^ hex_of_n (M.bytes_len t v));
+      if rt <> "1" then fail "oracle.C01" "decode(encode(v)) <> v for a value reached through the bitfield API";
+      if bytes_of_hex app <> (List.map n_of_int [0xAA; 0x55; 0xFF]) @ crate then
+        fail "oracle.C10" "append onto a prefix <> prefix ++ as_ssz_bytes (value reached through the bitfield API)";
+      if bytes_of_hex asb <> crate then fail "oracle.C10" "ssz_encode <> as_ssz_bytes";
+      if bytes_of_hex into <> crate then fail "oracle.C14" "into_bytes <> as_ssz_bytes (value reached through the bitfield API)";
+      (* raw byte view: minimal length, bit i of the view = bit i, nothing at or beyond the length *)
+      let rawb = bytes_of_hex raw in
+      let nbits = List.length bits in
+      let want_raw = M.spec_pack bits (nat_of_int (max 1 ((nbits + 7) / 8))) in
+      if rawb <> want_raw then fail "oracle.C11" ("raw byte view is not the minimal packing of the bits: expected " ^ hex_of_bytes want_raw);
+      if (empty = "1") <> (nbits = 0) then fail "oracle.C11" "is_empty disagrees with the length";
+      List.iter (fun g ->
+          match String.split_on_char '=' g with
+          | [i; r] ->
+            let expect =
+              (match int_of_string_opt i with
+               | Some k when k >= 0 && k < nbits -> if List.nth bits k then "1" else "0"
+               | _ -> "e") in
+            if r = "p" then fail "oracle.C05" ("get(" ^ i ^ ") panicked");
+            if r <> expect then fail "oracle.C11" (Printf.sprintf "get(%s) = %s, boolean sequence says %s" i r expect)
+          | _ -> ()) (String.split_on_char ',' gets)
+    end
   | ["bfbytes"; fl; hex; via_bytes; via_ssz] ->
     let flv = flavour_of fl in
     let bs = bytes_of_hex hex in
@@ -197,17 +243,20 @@ let eval (fields : string list) (fail : string -> string -> unit) (bump : string
       | M.FList n -> M.arb_bitlist n data
       | M.FDyn -> failwith "no arbitrary for dyn" in
     let m = match o with
-      | M.Ok b -> "ok " ^ bits_s (M.bf_iter b) ^ " rt" | M.Err -> "err" | M.Panic -> "panic" in
+      | M.Ok b -> "ok " ^ bits_s (M.bf_iter b) ^ " rt wf" | M.Err -> "err" | M.Panic -> "panic" in
     if m <> res then fail "corr.arb" ("model=" ^ m);
     if res = "panic" then fail "oracle.C20" "generator panicked";
     (match String.split_on_char ' ' res with
      | "ok" :: rest ->
-       let rt = List.nth rest (List.length rest - 1) in
-       let bits_str = String.concat " " (List.filteri (fun i _ -> i < List.length rest - 1) rest) in
+       let nr = List.length rest in
+       let wf = List.nth rest (nr - 1) in
+       let rt = List.nth rest (nr - 2) in
+       let bits_str = String.concat " " (List.filteri (fun i _ -> i < nr - 2) rest) in
        let l = List.length (bits_of_sexp_string bits_str) in
        let ok = match flv with M.FVec n -> l = int_of_n n | M.FList n -> l <= int_of_n n | M.FDyn -> true in
        if not ok then fail "oracle.C20" "generated value violates the length rule";
-       if rt <> "rt" then fail "oracle.C20" "generated value does not round-trip through SSZ"
+       if rt <> "rt" then fail "oracle.C20" "generated value does not round-trip through SSZ (or its encoder panics)";
+       if wf <> "wf" then fail "oracle.C20" "generated value is not a valid bitfield: byte view not minimal or a bit set at or beyond the length"
      | _ -> ())
   | ["derive"; d; ety; dty] ->
     bump "derive.programs";
